@@ -62,6 +62,10 @@ DgDefined(m, v) == m = "halfplane" => ~DgAtInf(v)
 DgInView(m, v) == m = "halfplane" =>
                     LET c == DgCoord(m, v) IN c[3] > 0 /\ Abs(c[1]) <= 6 * c[3] /\ c[2] <= 8 * c[3]
 
+\* the same for a drawing constructed with xlim = (win[1], win[2]), ylim = (.., win[3])
+DgInWindow(m, v, win) == m = "halfplane" =>
+                           LET c == DgCoord(m, v) IN c[3] > 0 /\ win[1] * c[3] <= c[1] /\ c[1] <= win[2] * c[3] /\ c[2] <= win[3] * c[3]
+
 \* Minkowski normal of span(x, y), x # y
 DgNormal(x, y) == Prim(<<0 - (x[2] * y[3] - x[3] * y[2]), x[3] * y[1] - x[1] * y[3], x[1] * y[2] - x[2] * y[1]>>)
 
